@@ -27,6 +27,8 @@ func main() {
 	switch os.Args[1] {
 	case "run":
 		run(os.Args[2:])
+	case "instrument":
+		instrument(os.Args[2:])
 	default:
 		fmt.Fprintln(os.Stderr, "unknown command", os.Args[1])
 		os.Exit(2)
@@ -119,6 +121,7 @@ func run(args []string) {
 			e.Unwind = *unwind
 			e.WitnessWanted = true
 			e.Progress = *progress
+		e.RepoRoot = strings.TrimRight(*repo, "/")
 			if *budget > 0 {
 				e.Deadline = time.Now().Add(*budget)
 			}
@@ -169,4 +172,26 @@ func run(args []string) {
 func fatal(err error) {
 	fmt.Fprintln(os.Stderr, "gosym:", err)
 	os.Exit(3)
+}
+
+// instrument: gosym instrument --repo R --out DIR --virt rel=real,... --sites a.go:12,b.go:7 -> JSON {rel: instrumented file}
+func instrument(args []string) {
+	fs := flag.NewFlagSet("instrument", flag.ExitOnError)
+	repo := fs.String("repo", "/repo", "repository root")
+	out := fs.String("out", "", "output directory")
+	virt := fs.String("virt", "", "overlay files: rel=real,rel=real")
+	sites := fs.String("sites", "", "comma-separated file:line positions")
+	fs.Parse(args)
+	vm := map[string]string{}
+	for _, kv := range strings.Split(*virt, ",") {
+		if i := strings.Index(kv, "="); i > 0 {
+			vm[kv[:i]] = kv[i+1:]
+		}
+	}
+	res, err := sym.InstrumentSites(*repo, vm, strings.Split(*sites, ","), *out)
+	if err != nil {
+		fatal(err)
+	}
+	b, _ := json.Marshal(res)
+	os.Stdout.Write(b)
 }
